@@ -94,6 +94,41 @@ func runOrder(hdr Header, c any, src string) CaseResult {
 			return res
 		}
 	}
+	// two PropertyOrder slices sharing one backing array (the nested one is a prefix of the parent's,
+	// with spare capacity): marshaling must neither write into it nor depend on it
+	if len(order) >= 2 && len(props) >= 1 {
+		shared := make([]string, len(order), len(order)+4)
+		copy(shared, order)
+		inner := &jsonschema.Schema{Properties: map[string]*jsonschema.Schema{shared[0]: {}, "zz": {}, "aa": {}}, PropertyOrder: shared[:1]}
+		ps := map[string]*jsonschema.Schema{}
+		for k, v := range props {
+			ps[k] = v
+		}
+		var firstKey string
+		for _, k := range abs.SortedKeys(toAnyMap(props)) {
+			firstKey = k
+			break
+		}
+		ps[firstKey] = inner
+		outer := &jsonschema.Schema{Type: "object", Properties: ps, PropertyOrder: shared}
+		fp := dump(outer)
+		o1, e1 := json.Marshal(outer)
+		o2, e2 := json.Marshal(outer)
+		res.Evals += 2
+		if e1 != nil || e2 != nil || !bytes.Equal(o1, o2) || dump(outer) != fp {
+			res.Failures = append(res.Failures, Failure{Kind: "order-aliasing", Source: src, Abstract: c, Concrete: conc,
+				Expected: "marshaling twice gives the same bytes and leaves PropertyOrder (shared backing array) untouched: " + string(o1),
+				Got:      string(o2) + " / " + dump(outer.PropertyOrder)})
+			return res
+		}
+		var t2 map[string]json.RawMessage
+		json.Unmarshal(o1, &t2)
+		gk, _ := objectKeys(t2["properties"])
+		if !reflect.DeepEqual(gk, want) {
+			res.Failures = append(res.Failures, Failure{Kind: "order-aliasing", Source: src, Abstract: c, Concrete: conc, Expected: want, Got: gk})
+			return res
+		}
+	}
 	// determinism under randomised map iteration
 	for i := 0; i < 30; i++ {
 		res.Evals++
